@@ -359,6 +359,14 @@ fn run_hist<D: DocLike>(spec: &Spec, ops: &[&str]) -> String {
         let frag: Option<String> = match *fr {
           "~" => None,
           "X" => Some("not a fragment".to_string()),
+          // other strings that are no fragment: a doubled delimiter in front of a valid name, a second delimiter inside,
+          // a bad percent triple, a trailing delimiter, a space after the delimiter
+          "X1" => Some("##k1".to_string()),
+          "X2" => Some("#a#b".to_string()),
+          "X3" => Some("#%zz".to_string()),
+          "X4" => Some("#k1#".to_string()),
+          "X5" => Some("# k1".to_string()),
+          "X6" => Some("###k2".to_string()),
           n => Some(format!("k{}", n)),
         };
         if let Some(f) = &frag {
@@ -575,8 +583,11 @@ pub fn gen(thorough: bool, seed: u64, out: &mut impl Write) {
     //     generate of the same fragment (shows that nothing stale blocks it), state after each step
     for start in [&empty, &busy] {
       for sc in scopes {
-        for fr in ["1", "~", "X", "7", "9"] {
+        for fr in ["1", "~", "X", "7", "9", "X1", "X2", "X3", "X4", "X5", "X6"] {
           for m in 0..8u32 {
+            if fr.len() == 2 && m != 0 && m != 2 {
+              continue;
+            }
             // bits: generate, deleteKey, insertKid
             let bits = ((m >> 2) & 1) << 4 | ((m >> 1) & 1) << 3 | (m & 1) << 2;
             writeln!(out, "C09 hist {}{} | gen:{}:{}:{} S gen:{}:{}:00000000 S", kind, start, sc, fr, mask(bits), sc, fr).unwrap();
@@ -641,7 +652,7 @@ pub fn gen(thorough: bool, seed: u64, out: &mut impl Write) {
       let mk = if r.chance(1, 2) { 0 } else { r.below(32) as u32 };
       let ex = r.chance(1, 4);
       match r.below(10) {
-        0..=3 => ops.push(format!("gen:{}:{}:{}{}", r.pick(&scopes), r.pick(&["1", "2", "3", "~", "7", "X"]), mask2(mk, ex), r.below(9))),
+        0..=3 => ops.push(format!("gen:{}:{}:{}{}", r.pick(&scopes), r.pick(&["1", "2", "3", "~", "7", "X", "X1", "X2", "X3", "X4", "X5", "X6"]), mask2(mk, ex), r.below(9))),
         4..=5 => ops.push(format!("at:{}:0.0.{}:{}", r.pick(&["F", "H"]), 1 + r.below(3), r.below(5))),
         6 => ops.push(format!("dt:F:0.0.{}:{}", 1 + r.below(3), r.below(5))),
         7 => ops.push(format!("purge:0.{}.{}:{}{}", r.below(3), 1 + r.below(3), mask2(mk, ex), r.below(9))),
